@@ -104,3 +104,80 @@ func init() {
 		return 16
 	}})
 }
+
+// c08ReuseCase (UDP): a client keeps one multiplexed association; a session is
+// opened on it, closed, and a new one is opened 30..110 s later. The open request
+// of the later session goes out under whatever key the association holds; at
+// that instant it must be acceptable to a server whose clock is within a minute.
+func c08ReuseCase(c *Ctx) *Result {
+	r := rngFor(c.Seed, "C08-reuse", c.Idx)
+	waitS := []int{30, 55, 65, 75, 90, 110}[c.Idx%6]
+	phase := int64(pick(r, 61000, 70000, 90000, 110000, 10000, 50000))
+	users := []UserSpec{{"alice", "alice-secret"}}
+	env, err := NewEnv(EnvCfg{UDP: true, Users: users, Multiplex: 3})
+	if err != nil {
+		return &Result{Verdict: Inconclusive, Detail: err.Error()}
+	}
+	defer env.Close()
+	params := map[string]interface{}{"wait_s": waitS, "first_session_phase_ms": phase}
+	c.Out.Start("C08", fmt.Sprintf("C08-reuse/%d/%d", c.Seed, c.Idx), c.Seed, params)
+	res := &Result{Params: params, Obs: map[string]float64{}}
+	sleepToPhase(120, phase)
+	cm, _ := env.NewClient(0, "")
+	p1 := &SessPlan{Idx: 0, CloseBy: 0, W: [2][]int{{100}, {100}}, R: [2][]int{{4096}, {4096}}, Key: [2]uint64{key2(c.Seed, c.Idx, 0, 0, 81), key2(c.Seed, c.Idx, 0, 1, 81)}}
+	if rs, to := runTransfer(env, cm, []*SessPlan{p1}, XferOpt{Watchdog: 60 * time.Second}); to || rs[0].ReadN[1] != 100 {
+		res.Verdict, res.Detail = Inconclusive, "first session failed"
+		return res
+	}
+	// let the server forget the first session (its clean-up tick), so that only the time-slotted keys can open the next one
+	advanceClock(time.Duration(waitS) * time.Second)
+	before := len(env.Hub())
+	x := time.Now().Unix()
+	p2 := &SessPlan{Idx: 0, CloseBy: 0, W: [2][]int{{100}, {100}}, R: [2][]int{{4096}, {4096}}, Key: [2]uint64{key2(c.Seed, c.Idx, 1, 0, 81), key2(c.Seed, c.Idx, 1, 1, 81)}}
+	rs2, to2 := runTransfer(env, cm, []*SessPlan{p2}, XferOpt{Watchdog: 60 * time.Second})
+	res.Obs["handshakes"] += 2
+	res.Shape = shapeHash("reuse", waitS, phase)
+	var first []byte
+	for _, ev := range env.Hub()[before:] {
+		if ev.Kind == "send" && ev.D.To == env.Cfg.serverAddr().String() {
+			first = ev.D.Data
+			break
+		}
+	}
+	hashed := users[0].Hashed()
+	if len(first) >= refcodec.NonceLen+refcodec.EncMetaLen {
+		for _, d := range []int64{-60, -30, 0, 30, 60} {
+			ok := false
+			for _, k := range refcodec.Keys3(hashed, x+d) {
+				if pt, err := refcodec.NewAEAD(k).Open(nil, first[:refcodec.NonceLen], first[refcodec.NonceLen:refcodec.NonceLen+refcodec.EncMetaLen], nil); err == nil {
+					m, _ := refcodec.ParseMeta(pt)
+					if dd := int64(m.Timestamp) - (x+d)/60; dd >= -1 && dd <= 1 {
+						ok = true
+					}
+				}
+			}
+			res.Obs["skews_checked"]++
+			if !ok {
+				res.Verdict, res.Sig = Violated, "C08|reuse|client-segment-unacceptable-to-server-within-60s"
+				res.Detail = fmt.Sprintf("a new session opened %d s after the previous one on the same UDP association: its first datagram, emitted at instant %d, is not acceptable to a documented server whose clock reads %+d s", waitS, x, d)
+				return res
+			}
+		}
+	}
+	if (to2 || rs2[0].ReadN[1] != 100) && canSteerClock() {
+		res.Verdict, res.Sig = Violated, "C08|reuse|own-handshake-failed"
+		res.Detail = fmt.Sprintf("a new session opened %d s after the previous one on the same client failed against the real server on the same clock", waitS)
+		return res
+	}
+	res.Verdict = Held
+	return res
+}
+
+func init() {
+	register(&Scenario{Name: "C08-reuse", Run: c08ReuseCase, NeedsVirtual: true, Cases: func(t string) int {
+		if t == "thorough" {
+			return 300
+		}
+		return 12
+	}})
+}
